@@ -26,6 +26,8 @@ CLAIMED = {
          "Go regexp used by Valid/isNumeric (modelled by predicates, validated by correspondence)"),
  "C10": ("accepts_iff: acceptance ⇔ limit ∧ (empty ∧ rule) ∨ upper-cased text = M^k ++ three group forms, value = sum mod 2^64 (no mod needed below 2^54 bytes); case_invariant; valid_iff_parse; error classes; no panic",
          "Go regexp incl. (?i) Unicode folding (modelled by a hand scanner; 256-value foreign-byte and look-alike rune sweeps in the harness)"),
+ "C12": ("tokenizer state lemmas (string key guaranteed, stack discipline, skip of unknown values of any nesting restores the state), no_panic, gating of the three forms, number/string forms = text rules, single_value (the whole input is consumed; trailing data rejected), the abstract object semantics evalMembers with accepts_iff_denotes, order_independent (+ rejection preserved), defects, too_many_members (0 = no maximum), unknown members inserted/deleted without effect, and the refinement object_loop_refinement / object_refinement: the token-level loop on rendered JSON (nested arrays/objects included) equals evalMembers",
+         "the encoding/json decoder itself (transliterated model, validated on >1M token streams incl. invalid UTF-8, surrogates, truncations); well-formedness against an independent JSON grammar (oracle: json.Valid + generic decoding on the implementation); the refinement covers compact rendering with plain ASCII keys/strings and integer literals"),
  "C13": ("shorten_exact_maximal (value·1024^k = size, unit is the k-th binary unit, no larger unit divides, zero ↦ 0 B; mask/shift/unit list generated), plain and pretty renderings characterised digit by digit (a separator after exactly the digits with a multiple of three digits to their right, one before the unit, nothing else)",
          "—"),
  "C14": ("range, reflexivity, antisymmetry, build-irrelevance, equal-core-pre ⇒ 0, latest_choice for ALL versions (arbitrary field bytes), string helpers = parse-then-compare with the documented error precedence, Next* plain release strictly above, panic ⇔ 2^64−1",
@@ -36,6 +38,8 @@ CLAIMED = {
          "input buffers neither modified nor retained (guard bytes, scribble); string/[]byte/named-type instantiations agree in value and message (asserted inside every parse op)"),
  "C18": ("no panic reachable in the date, sem, roman parsers and Date.UnmarshalBinary (each unguarded index modelled as a partial look-up); input-too-long ⇔ limit ≠ 0 ∧ length > limit for all five packages (so checked first, never within the limit, off at 0); termination by Lean's termination checker on the model",
          "uu and size no-panic are covered by their own properties' theorems where proved (C05, C12) and by the panic-capturing harness; message does not echo the input, allocation and time bounds, native fuzzing (thorough) — implementation only"),
+ "C19": ("version4 for all draws, variant1 for 63-bit draws (as rand.Int63 yields; variant_needs_63bit shows the hypothesis is needed), free_bits_onto with explicit witnesses (all 122 remaining bits independent), fixed_bits, free_bit_flips — over the generated BitVec expressions of RandomID; protocol: mutual_exclusion, calls_get_consecutive_pairs, completed_calls_disjoint for every schedule of any number of threads (invariant proof over a small-step model), generator_only_under_mutex (generated structure fact), and the counter-model without the mutex",
+         "axioms: the bit lemmas use bv_decide (one ofReduceBool-style axiom per helper lemma in Lemmas/UURandom.lean, listed in the evidence); data-race freedom in the Go memory model, sync.Mutex itself, and 'no duplicate within a run' (a property of math/rand's stream) are checked on the implementation only: concurrent draws through the verif hook must consume 2N positions as N consecutive pairs"),
  "C20": ("decision logic of the six helpers over scripted behaviours: per-case reported ⇔ ¬satisfied outside the K1 shape, list-level iff (reports_iff_partial), other direction ignored, FailNow ⇔ type lacks interface ∧ cases ≠ [], a verdict per case; the full statement is proved FALSE (errorMatch_silent / full_statement_is_false) — that is known finding K1",
          "testify/assert behaviour and reflection (castToFunc, helperNew) — modelled, validated by correspondence on generated scripted types; custom TypeHelper implementations are not modelled (nil helper only)"),
  "C15": ("construction error ⇔ both bounds ∧ from after to; membership ⇔ inclusive day-number interval for the five filter shapes",
